@@ -97,6 +97,7 @@ func runC20(o *cli.Opts, run *evid.Run) {
 	run.Require("scrapes completed while a proof was in flight", run.GetInt("scrapes_during_proof"), 2)
 	run.Require("histories checked by porcupine", run.GetInt("porcupine_ok"), 2)
 	run.Require("max client overlap", run.GetInt("max_overlap"), 4)
+	run.Require("long-lived (>30 s) requests", run.GetInt("slow_requests"), 1)
 }
 
 func c20Mode(o *cli.Opts, run *evid.Run, bin, mode, variant string) {
@@ -190,9 +191,23 @@ func c20Mode(o *cli.Opts, run *evid.Run, bin, mode, variant string) {
 		}
 		pw.Wait()
 	}
+	// one request that stays in flight for a long time (its body arrives in two segments far apart):
+	// it must be answered and counted like any other
+	var slow sync.WaitGroup
+	slow.Add(1)
+	go func() {
+		defer slow.Done()
+		rq := validRequest(gen.RNG(o.Seed, key+"/slow"), ks)
+		rq.raw = "slow-body"
+		rq.pause = o.Pick(33000, 130000)
+		rq.class = "valid/slow-upload"
+		do(99, rq)
+		run.Add("slow_requests", 1)
+	}()
 	phase("sequential", 1, o.Pick(40, 400))
 	phase("concurrent8", 8, o.Pick(14, 200))
 	phase("concurrent16", 16, o.Pick(10, 200))
+	slow.Wait()
 	close(stopScrape)
 	sw.Wait()
 	// quiescence: all clients returned; final scrape
